@@ -30,7 +30,7 @@ def size_leaves(body, e, out, ops, depth=0, seen=None, sub=None):
             for a in t["args"]:
                 size_leaves(body, body.origin_operand(a), out, ops, depth + 1, seen, sub)
             return
-        if n in ("core::option::Option::<T>::ok_or", "core::option::Option::<T>::and_then"):
+        if n in ("core::option::Option::<T>::ok_or", "core::option::Option::<T>::ok_or_else", "core::option::Option::<T>::and_then"):
             size_leaves(body, body.origin_operand(t["args"][0]), out, ops, depth + 1, seen, sub)
             if n.endswith("and_then"):
                 # the closure adds the on-heap length word when the layout needs it
@@ -133,6 +133,12 @@ def _is_bool_word(body, e):
 
 
 def rule_layout_agreement(ctx, rule="LAYOUT"):
+    _rule_layout_agreement(ctx, rule)
+    # the 32-bit-only parts of the same agreement
+    rule_realloc_same_kind(ctx, rule)
+
+
+def _rule_layout_agreement(ctx, rule="LAYOUT"):
     F = ctx.F
     lfc = F.bodies.get(HB + "layout_from_capacity")
     ctx.need(rule, HB + "layout_from_capacity", "anchor", lfc is not None, "layout_from_capacity not found")
@@ -690,3 +696,273 @@ def rule_slot_decision(ctx, rule="LAYOUT"):
                 ctx.ob(rule, path, "slot-decided-on-capacity:" + st.name.rsplit("::", 1)[-1], bycap, line=st.line, how="the allocation start steps back over the length slot exactly when is_len_heap_layout(header.capacity)",
                        detail="the pointer given to %s steps back over the on-heap length slot %s, while allocate_ptr / realloc create the slot when is_len_heap_layout(capacity): after with_capacity(n) or reserve(n) past MAX_LEN with a short text the slot exists but the pointer is computed without it (freed / reallocated with an address 4 bytes inside the block)" % (st.name, "when the current length is stored on the heap (TextLen::is_heap)" if bylen else "under %s" % [g[:2] for g in gs]))
     ctx.need(rule, HB + "dealloc", "slot-arm", n >= 1, "no allocation-start computation with a length-slot arm found on this 32-bit target", how="%d allocator sites with a slot arm" % n)
+
+
+def _usize_write_call(t):
+    nme = callee_name(t)
+    leaf = nme.rsplit("::", 1)[-1]
+    if not (nme.startswith("core::ptr::") and leaf in ("write", "write_unaligned", "write_volatile")):
+        return False
+    ga = (t.get("generic_args") or [""])[0].strip()
+    pt = [a for a in t.get("arg_tys", []) if a.startswith("*mut ") or "NonNull<" in a]
+    return ga == "usize" or any(a.strip() in ("*mut usize", "core::ptr::NonNull<usize>", "core::ptr::non_null::NonNull<usize>") for a in pt)
+
+
+def _slot_write_blocks(F, b, depth=3, skip=()):
+    """blocks of b that store a usize through a raw pointer: a ptr::write / NonNull::write of a usize,
+    a `*p = n` through a `*mut usize`, or a call of a private function that does"""
+    out = {}
+    for bb, t in b.calls():
+        if _usize_write_call(t):
+            out[bb] = describe(b, b.origin_operand(t["args"][1])) if len(t["args"]) == 2 else None
+        else:
+            k = t.get("local_key")
+            if k and depth > 0 and k in F.bodies and k != b.path and k not in skip and not k.endswith("::set_len"):
+                if _slot_write_blocks(F, F.bodies[k], depth - 1, skip + (b.path,)):
+                    out[bb] = None
+    for bb, blk in enumerate(b.blocks):
+        for st in blk["stmts"]:
+            if st["k"] == "assign" and st["lhs"]["p"] and st["lhs"]["p"][-1] == "deref" and (st.get("lhs_ty") or "").strip() == "usize" and (b.local_ty(st["lhs"]["l"]) or "").startswith("*mut"):
+                out[bb] = describe(b, b.origin_rvalue(st["rv"]))
+    return out
+
+
+def rule_len_slot(ctx, rule="LENSLOT"):
+    """32-bit only.  (a) `is_len_heap_layout(capacity)` is true for every capacity above MAX_LEN - the
+    capacities whose text can reach the length TextLen::new answers with the ON_THE_HEAP sentinel for
+    (evaluated at the boundary values; the predicate is a comparison of the capacity with constants).
+    (b) whoever builds a HeapBuffer from a `TextLen::new(n)` that may be the sentinel stores n in the
+    slot: every path to the `HeapBuffer { ptr, len }` aggregate passes a `ptr::write::<usize>(.., n)`
+    or leaves an `is_heap()` test on its false edge."""
+    F = ctx.F
+    if F.ptr_bits != 32:
+        return
+    from r_text import _ceval, _U
+    from guards import reach_cut, edge_fact
+    mx = F.const_scalar("repr::heap_buffer::internal::MAX_LEN")
+    pb = F.bodies.get("repr::heap_buffer::internal::is_len_heap_layout")
+    if pb is None or mx is None:
+        ctx.notes.append("LENSLOT: no `is_len_heap_layout` predicate / MAX_LEN constant on this tree: the 'slot for every capacity above MAX_LEN' clause is not decided (the LAYOUT rules compare the allocation sizes)")
+    if pb is not None and mx is not None:
+        ds = pb.defs.get(0, [])
+        bad = []
+        pts = sorted({0, 1, mx - 1, mx, mx + 1, mx + 2, 1 << 31, (1 << 32) - 1})
+        if len(ds) == 1:
+            r = ("call", ds[0][0]) if ds[0][1] == "term" else pb.origin_rvalue(ds[0][2])
+            for v in pts:
+                got = None
+                for key in ("repr::heap_buffer::internal::Capacity::as_usize(p1)", "p1.0", "p1"):
+                    got = _ceval(pb, r, None, F, 0, None, {key: v})
+                    if isinstance(got, int) and not isinstance(got, _U):
+                        break
+                if not isinstance(got, int) or isinstance(got, _U):
+                    bad.append((v, "not evaluated"))
+                elif v > mx and not got:
+                    bad.append((v, "false"))
+        else:
+            bad.append(("-", "%d return definitions" % len(ds)))
+        ctx.ob(rule, pb.path, "slot-for-every-capacity-above-MAX_LEN", not bad, how="true at MAX_LEN+1, MAX_LEN+2, 2^31, 2^32-1 (MAX_LEN = %#x)" % mx,
+               detail="is_len_heap_layout(%s) is %s: a text of that length gets the ON_THE_HEAP sentinel from TextLen::new, but the block has no slot for its length (the word in front of the block is used instead)" % ((("%#x" % bad[0][0]) if bad and isinstance(bad[0][0], int) else "-"), bad[0][1] if bad else "-"))
+    n = 0
+    for path, b in F.bodies.items():
+        for bb, blk in enumerate(b.blocks):
+            for st in blk["stmts"]:
+                if not (st["k"] == "assign" and st["rv"]["k"] == "aggregate" and st["rv"].get("adt") == "repr::heap_buffer::HeapBuffer"):
+                    continue
+                lens = []
+                for f in st["rv"]["fields"]:
+                    d = describe(b, b.origin_operand(f))
+                    m = re.search(r"repr::heap_buffer::internal::TextLen::new\((.*?)\)\)?$", d)
+                    if m:
+                        lens.append(m.group(1))
+                if not lens or lens[0].startswith("const:"):
+                    continue
+                n += 1
+                want = lens[0]
+                writes = {wb for wb, v in _slot_write_blocks(F, b).items() if v is None or v == want}
+                for wb, t in b.calls():
+                    if callee_name(t) == "repr::heap_buffer::HeapBuffer::set_len":
+                        writes.add(wb)
+
+                def cut(sb, lab):
+                    f = edge_fact(b, sb, lab)
+                    return bool(f) and f[0] == "pred" and f[1].endswith("TextLen::is_heap") and f[3] is False
+                seen = reach_cut(b, 0, lambda q: q in writes, cut)
+                ctx.ob(rule, path, "sentinel=>slot-written", bb not in seen or bb in writes, line=st.get("line"), how="the slot is written with %s on every path on which the length may be the sentinel" % want,
+                       detail="%s builds a HeapBuffer whose length word comes from TextLen::new(%s) - the ON_THE_HEAP sentinel above MAX_LEN - on a path that never stores the length in the slot in front of the header: len() then reads an unwritten word" % (path, want))
+    ctx.need(rule, "crate", "constructors", n >= 1, "only %d HeapBuffer constructions from TextLen::new(n)" % n, how="%d constructions" % n)
+    # (c) set_len: after the new length word is stored, the slot is written whenever THAT word is the
+    # sentinel - the test is made on the new word (evaluated after the store), not on the old one
+    sl = F.bodies.get(HB + "set_len")
+    ctx.need(rule, HB + "set_len", "anchor", sl is not None, "HeapBuffer::set_len not found")
+    if sl is not None:
+        stores = [bb for bb, blk in enumerate(sl.blocks) for st in blk["stmts"]
+                  if st["k"] == "assign" and st["lhs"]["l"] == 1 and st["lhs"]["p"] and st["lhs"]["p"][0] == "deref" and "TextLen" in (st.get("lhs_ty") or "")]
+        writes = set(_slot_write_blocks(F, sl))
+        ctx.need(rule, sl.path, "length-word-store", len(stores) >= 1 and len(writes) >= 1, "set_len has %d stores of the length word and %d slot writes" % (len(stores), len(writes)), how="%d store(s), %d slot write(s)" % (len(stores), len(writes)))
+        for S in stores:
+            def cut(sb, lab, S=S):
+                f = edge_fact(sl, sb, lab)
+                if not (f and f[0] == "pred" and (f[1].endswith("TextLen::is_heap") or f[1].endswith("is_len_on_heap")) and f[3] is False):
+                    return False
+                d = strip_refs(sl.origin_operand(sl.term(sb)["discr"]))
+                return d[0] == "call" and sl.dominates(S, d[1])
+            seen = set()
+            for y, lab in sl.succ(S, unwind=False):
+                seen |= reach_cut(sl, y, lambda q: q in writes, cut)
+            bad = [q for q in seen if sl.term(q)["k"] == "return" and q not in writes]
+            ctx.ob(rule, sl.path, "new-word-sentinel=>slot-written", not bad and S not in writes, line=sl.line(S), how="after the store, every path writes the slot or leaves an is_heap() test of the NEW word on its false edge",
+                   detail="set_len can return after storing the new length word without writing the slot, although that word may be the sentinel (the test is made before the store, on the old word): a length crossing MAX_LEN reads back stale")
+
+
+def rule_realloc_same_kind(ctx, rule="LAYOUT"):
+    """32-bit only: the block is resized in place (alloc::realloc) only when the old and the new
+    capacity ask for the same layout - both with the length slot or both without.  A capacity that
+    crosses MAX_LEN needs a fresh block (the header records only the capacity, and dealloc / the next
+    realloc re-derive the slot from it).  Decided by cases: for each of the four answers the two
+    layout predicates (any private bool function of one Capacity: of the header's, of the requested
+    one) can give, the branch conditions built from them (tuple matches, ==, !=, !, &, |, flags) are
+    evaluated and the allocator's realloc must be unreachable when the answers differ."""
+    F = ctx.F
+    if F.ptr_bits != 32:
+        return
+    b = F.bodies.get(HB + "realloc")
+    if b is None:
+        return
+    sites = [bb for bb, t in b.calls() if callee_name(t) == "alloc::alloc::realloc"]
+    if not sites:
+        return
+
+    def classify(e, projected=False):
+        # a bool handed back inside a larger result (`layout_from_capacity(cap)? -> (Layout, bool)`)
+        peeled = False
+        for _ in range(8):
+            e = strip_refs(e)
+            if e[0] in ("field", "downcast"):
+                e, peeled = e[1], True
+            elif e[0] == "call" and (callee_name(b.term(e[1])).endswith("::branch") or callee_name(b.term(e[1])).rsplit("::", 1)[-1] in ("unwrap", "unwrap_unchecked", "expect")) and b.term(e[1])["args"]:
+                e, peeled = b.origin_operand(b.term(e[1])["args"][0]), True
+            elif e[0] in ("mem", "local") and len(b.defs.get(e[1], [])) == 1 and peeled:
+                d0 = b.defs[e[1]][0]
+                e = ("call", d0[0]) if d0[1] == "term" else b.origin_rvalue(d0[2])
+            else:
+                break
+        if e[0] != "call":
+            return None
+        t = b.term(e[1])
+        k = t.get("local_key")
+        rty = (b.local_ty(t["dest"]["l"]) or "").strip()
+        two = peeled or rty == "bool" or (rty in F.adts and len(F.adts[rty]["variants"]) == 2 and not any(v["fields"] for v in F.adts[rty]["variants"]))
+        if not k or len(t["args"]) != 1 or not two or "Capacity" not in (t.get("arg_tys") or [""])[0]:
+            return None      # (a bool, or a private two-variant enum such as LenSlot::{InHandle, OnHeap})
+        d = describe(b, b.origin_operand(t["args"][0]))
+        if re.search(r"\bp2\b", d):
+            return "new"
+        if "HDR(p1)" in d or "header(" in d:
+            return "cur"
+        return None
+
+    def beval(e, env, depth=0):
+        e = strip_refs(e)
+        if depth > 12:
+            return None
+        k = e[0]
+        if k == "const":
+            return bool(e[2]) if isinstance(e[2], int) else None
+        if k == "discr":
+            return beval(e[1], env, depth + 1)
+        if k == "call":
+            c = classify(e)
+            return env[c] if c else None
+        if k == "un" and e[1] == "Not":
+            v = beval(e[2], env, depth + 1)
+            return None if v is None else (not v)
+        if k == "bin" and e[1] in ("Eq", "Ne", "BitAnd", "BitOr", "BitXor"):
+            x, y = beval(e[2], env, depth + 1), beval(e[3], env, depth + 1)
+            if e[1] == "BitAnd" and (x is False or y is False):
+                return False
+            if e[1] == "BitOr" and (x is True or y is True):
+                return True
+            if x is None or y is None:
+                return None
+            return {"Eq": x == y, "Ne": x != y, "BitAnd": x and y, "BitOr": x or y, "BitXor": x != y}[e[1]]
+        if k == "field" and strip_refs(e[1])[0] == "agg" and isinstance(e[2], int) and e[2] < len(strip_refs(e[1])[3]):
+            return beval(strip_refs(e[1])[3][e[2]], env, depth + 1)
+        if k == "field" and (len(e) < 4 or (e[3] or "").strip() == "bool"):
+            c = classify(e)
+            if c:
+                return env[c]
+        if k in ("mem", "local"):
+            if e[1] in env.get("known", {}):
+                return env["known"][e[1]]
+            ds = b.defs.get(e[1], [])
+            if len(ds) == 1:
+                return beval(("call", ds[0][0]) if ds[0][1] == "term" else b.origin_rvalue(ds[0][2]), env, depth + 1)
+        if k == "phi" and env.get("known_phi") is not None:
+            return env["known_phi"]
+        return None
+    asked = set()
+    for bb, t in b.calls():
+        if t.get("local_key") and len(t["args"]) == 1 and "Capacity" in (t.get("arg_tys") or [""])[0] and not callee_name(t).endswith("::as_usize"):
+            d = describe(b, b.origin_operand(t["args"][0]))
+            asked.add("new" if re.search(r"\bp2\b", d) else ("cur" if ("HDR(p1)" in d or "header(" in d) else "?"))
+    asked.discard("?")
+    bad = None
+    for A in (False, True):
+        for B in (False, True):
+            if A == B:
+                continue
+            # (bool temporaries assigned constants on the way - `matches!(..)` - are tracked per path)
+            start = (0, ())
+            seen, work = {start}, [start]
+            while work:
+                x, kn = work.pop()
+                if x in sites:
+                    bad = (A, B)
+                    break
+                known = dict(kn)
+                env = {"cur": A, "new": B, "known": known}
+                for st in b.blocks[x]["stmts"]:
+                    if st["k"] == "assign" and not st["lhs"]["p"] and (b.local_ty(st["lhs"]["l"]) or "") == "bool":
+                        rv = st["rv"]
+                        v = None
+                        if rv["k"] == "use" and "c" in rv["a"] and "scalar" in rv["a"]["c"]:
+                            v = bool(rv["a"]["c"]["scalar"])
+                        else:
+                            try:
+                                v = beval(b.origin_rvalue(rv), env)
+                            except Exception:
+                                v = None
+                        if v is None:
+                            known.pop(st["lhs"]["l"], None)
+                        else:
+                            known[st["lhs"]["l"]] = v
+                t = b.term(x)
+                only = None
+                if t["k"] == "switch":
+                    d = t["discr"]
+                    pl = d.get("mv") or d.get("cp")
+                    v = None
+                    if pl and not pl["p"] and pl["l"] in known:
+                        v = known[pl["l"]]
+                    if v is None:
+                        v = beval(b.origin_operand(d), env)
+                    if v is not None:
+                        only = next((tb for av, tb in t["arms"] if av == int(v)), t["otherwise"])
+                for y, lab in b.succ(x, unwind=False):
+                    if only is not None and y != only:
+                        continue
+                    stt = (y, tuple(sorted(known.items())))
+                    if stt not in seen:
+                        seen.add(stt)
+                        work.append(stt)
+            if bad:
+                break
+        if bad:
+            break
+    name = lambda v: "with the slot" if v else "without the slot"
+    ok = bad is None and asked == {"cur", "new"}
+    why = ("the block is resized in place on a path where the old capacity's layout is %s and the new capacity's is %s" % (name(bad[0]), name(bad[1]))) if bad else \
+          ("realloc asks the layout predicate only of %s" % (sorted(asked) or "nothing"))
+    ctx.ob(rule, b.path, "in-place-only-within-one-layout-kind", ok, line=b.line(sites[0]), how="alloc::realloc unreachable when the layout predicate answers differently for the old and the new capacity (4 cases evaluated)",
+           detail=why + ": the header then records a capacity whose layout differs from the block's, and dealloc / the next realloc compute the block's start and size from the capacity")
